@@ -156,21 +156,108 @@ theorem ltagIndexFor_total (d : List Nat) (n : Nat) (tag : List Nat) (hr : ltagR
     subst hi
     exact (h4 t (List.mem_of_find?_eq_some hf)).1
 
+/-! ## IFT -/
+
+/-- **`CompatibilityId::from_u32s` never indexes outside its arrays**: the nested `for i in 0..4`,
+`for j in 0..4` loops write `data[i * 4 + j]` for exactly the 16 indices and produce the four words in
+big-endian order. -/
+theorem compatFromU32s_total (a b c e : Nat) :
+    compatFromU32s [a, b, c, e] = some (beBytes 4 a ++ beBytes 4 b ++ beBytes 4 c ++ beBytes 4 e) :=
+  compatFromU32s_eq a b c e
+
+/-- `U8Or16::read_with_args` reads exactly `compute_size` (1 or 2) bytes from the front of the data -/
+theorem u8or16Read_in_bounds (d : List Nat) (mei v : Nat) (h : u8or16Read d mei = some v) :
+    (u8or16Size mei = 1 ∨ u8or16Size mei = 2) ∧ u8or16Size mei ≤ d.length ∧ v = beAt d 0 (u8or16Size mei) := by
+  unfold u8or16Read at h
+  obtain ⟨h1, h2⟩ := readAt_some h
+  refine ⟨?_, by omega, h2⟩
+  unfold u8or16Size; split <;> simp
+
+/-- `PatchMapFormat1::entry_count` cannot overflow its `u32`, and `is_entry_applied` only answers `true`
+from a byte inside the bitmap (which lies inside the table) -/
+theorem f1_entry_helpers (d : List Nat) (h : F1Hdr) (hr : f1Read d = some h) (hb : ∀ b ∈ d, b < 256) :
+    f1EntryCount h = some (h.maxEntry + 1) ∧
+    ∀ i, f1IsEntryApplied d h i = true → i / 8 < h.bitmapLen ∧ 36 + i / 8 < d.length := by
+  obtain ⟨hm, _, _, hfit⟩ := f1Read_some hr
+  have hmb : h.maxEntry < 65536 := by rw [hm]; exact beAt_lt d hb 21 2
+  refine ⟨?_, fun i hi => ?_⟩
+  · unfold f1EntryCount
+    have : h.maxEntry + 1 ≤ 4294967295 := by omega
+    simp [this]
+  · unfold f1IsEntryApplied PatchMap.isEntryApplied at hi
+    cases hg : ((d.drop 36).take h.bitmapLen)[i / 8]? with
+    | none => simp [hg] at hi
+    | some b =>
+      have := (List.getElem?_eq_some_iff.mp hg).1
+      simp only [List.length_take, List.length_drop] at this
+      omega
+
+/-- **`gid_to_entry_iter` terminates within `glyph_count − first_mapped_glyph` trips, never traps, and
+every item is in range**: when the glyph map cannot be read the iterator is empty; otherwise the
+model's fuel `glyph_count + 2` suffices, the number of trips (items + skipped zero entries) is at most
+`glyph_count − first_mapped_glyph`, which — one or two bytes per mapped glyph — is below the table
+length; `self.gid += 1` stays far from `u32::MAX` and `cur_gid − first_mapped_glyph` never underflows;
+each yielded `(gid, entry)` has `first_mapped_glyph ≤ gid < glyph_count`, `entry > 0`, read from inside
+the `entry_index` array. -/
+theorem gidToEntryIter_bounded (d : List Nat) (h : F1Hdr) (hr : f1Read d = some h) (hb : ∀ b ∈ d, b < 256) :
+    (∀ e, f1GlyphMap d h = .error e → gidTrace d h = some []) ∧
+    (∀ g, f1GlyphMap d h = .ok g →
+      ∃ evs, gidTrace d h = some evs ∧ evs.length ≤ h.glyphCount - g.first ∧
+        (h.glyphCount - g.first) * g.size + 2 ≤ d.length ∧ 1 ≤ g.size ∧
+        trapped evs = false ∧ ∀ a ∈ items evs, GidItemOk g h.glyphCount a) :=
+  gidTrace_facts d h hr hb
+
+/-- **`FeatureMap::entry_records_size` is total**: the loop over the feature records makes
+`feature_count` trips (six or eight bytes each, all inside the table), no `record?` fails, the
+unchecked `num_bytes += count · field_width · 2` stays below 2^34, and the result is the sum over the
+records' `entry_map_count`s. -/
+theorem entryRecordsSize_total (sub : List Nat) (meiOwn meiArg n rs : Nat)
+    (hr : featureMapRead sub meiOwn = .ok (n, rs)) (hl : sub.length ≤ MAXU) (hb : ∀ b ∈ sub, b < 256) :
+    ∃ v, entryRecordsSize sub meiOwn meiArg = .ok v ∧ v ≤ n * (65535 * 4) ∧ n * rs + 2 ≤ sub.length ∧
+      v = (List.range n).foldl (fun a i => a + recCount ((sub.drop 2).take (n * rs)) rs (u8or16Size meiOwn) i *
+        (if meiArg < 256 then 1 else 2) * 2) 0 :=
+  entryRecordsSize_facts sub meiOwn meiArg n rs hr hl hb
+
+/-- … and it is the value the C19 decoder model (`PatchMap.entryRecordsSize`, Model/PatchMapDecode.lean)
+computes on any parsed view `t` of the table whose feature records carry the `entry_map_count`s found in
+the bytes. -/
+theorem entryRecordsSize_matches_C19 (sub : List Nat) (meiOwn n rs : Nat) (t : PatchMap.F1Table)
+    (hr : featureMapRead sub meiOwn = .ok (n, rs)) (hl : sub.length ≤ MAXU) (hb : ∀ b ∈ sub, b < 256)
+    (hc : t.featRecs.map (·.count) =
+      (List.range n).map (recCount ((sub.drop 2).take (n * rs)) rs (u8or16Size meiOwn))) :
+    entryRecordsSize sub meiOwn t.maxEntry = .ok (PatchMap.entryRecordsSize t) := by
+  obtain ⟨v, h1, _, _, h4⟩ := entryRecordsSize_facts sub meiOwn t.maxEntry n rs hr hl hb
+  rw [h1, h4, entryRecordsSize_eq_C19 t _ hc, List.foldl_map]
+
+/-- **`glyph_data_for_table` terminates within `glyph_count` items, never traps, and every glyph's
+data lies inside the table** — for every `table_index: usize` (the start index is a saturating
+product): the model's fuel `glyph_count + 2` suffices, at most `glyph_count ≤ (len − 5) / 2` items are
+produced, and an `Ok((gid, data))` item is `data = table[start .. start + len]` with
+`0 < start`, `start + len ≤ table.len()`. -/
+theorem glyphDataForTable_bounded (d : List Nat) (wide : Bool) (h : GpHdr) (ti : Nat)
+    (hr : gpRead d wide = some h) (hl : d.length ≤ MAXU) :
+    ∃ evs, gdTrace d h ti = some evs ∧ evs.length ≤ h.gc ∧ 5 + h.gc * 2 ≤ d.length ∧
+      trapped evs = false ∧ ∀ a ∈ items evs, GdItemOk d a :=
+  gdTrace_facts d wide h ti hr hl
+
+/-- **the first `Err` item ends the iteration**: a call of `GlyphDataIterator::next` that yields an
+`Err` sets `failed`, and a failed iterator returns `None`. -/
+theorem glyphData_error_is_last (d : List Nat) (wide : Bool) (h : GpHdr) (si : Nat) (s : GdSt)
+    (hr : gpRead d wide = some h) (hl : d.length ≤ MAXU) :
+    (∀ e, (gdStep d h si s).1 = .yield (.error e) → (gdStep d h si s).2.failed = true) ∧
+    (s.failed = true → (gdStep d h si s).1 = .done) := by
+  obtain ⟨_, _, _, h2⟩ := gpRead_some hr
+  refine ⟨fun e he => ((gdStep_facts d h si s hl h2).2.2 _ he).2 ⟨e, rfl⟩, fun hf => ?_⟩
+  unfold gdStep
+  simp [hf]
+
 /-! ## non-vacuity -/
 
-/-- the example table of the Apple `kern` chapter (7 classes, class table for glyphs 3..6):
-glyph 5 has class 3; entry (state 2, class 1) is `(2, 0x8114)` -/
-def exState : List Nat :=
-  [0,7, 0,10, 0,18, 0,40, 0,64,  0,3, 0,4, 1,2,3,4,
-   2,0,0,2,1,0,0, 2,0,0,2,1,0,0, 2,3,3,2,3,4,5, 0,
-   0,18,0x81,0x12, 0,32,0x81,0x12, 0,18,0,0, 0,32,0x81,0x14, 0,18,0x81,0x16]
 
 example : stRead exState = true ∧ stClass exState 5 = .ok 3 ∧ stClass exState 7 = .err .oob ∧
     stClass exState 0xFFFF = .ok 2 ∧ stEntry exState 2 1 = .ok (2, 0x8114) ∧
     stEntry exState 3 0 = .ok (0, 0x8112) ∧ stEntry exState 9 0 = .err .oob := by decide +kernel
 
-/-- format 6 lookup with UNSORTED keys: the search still ends inside the table -/
-def exLookup6 : List Nat := [0,6, 0,4, 0,3, 0,0, 0,0, 0,0,  0,9, 0,1,  0,2, 0,7,  0,5, 0,3]
 example : lookupValue exLookup6 2 2 = .ok 7 := by decide +kernel
 example : lookupValue exLookup6 2 5 = .ok 3 := by decide +kernel
 /-- key 9 is present (first record) but not found: the records are not sorted -/
@@ -188,5 +275,25 @@ example : ltagRead [0,0,0,1, 0,0,0,0, 0,0,0,3, 0,24,0,2, 0,26,0,1, 0,27,0,2, 101
 
 example : utf8Valid [0xE2, 0x82, 0xAC] = true ∧ utf8Valid [0xED, 0xA0, 0x80] = false ∧
     utf8Valid [0xC0, 0x80] = false ∧ utf8Valid [0xF4, 0x90, 0x80, 0x80] = false := by decide +kernel
+
+
+example : (f1Read exF1).map (·.glyphCount) = some 5 ∧
+    ((f1Read exF1).bind (gidTrace exF1)).map items = some [(2, 2), (4, 1)] ∧
+    (f1Read exF1).map (fun h => [0, 1, 2, 3, 8].map (f1IsEntryApplied exF1 h)) =
+      some [true, false, true, false, false] := by decide +kernel
+
+/-- a feature map with two records (`max_entry_index` < 256: 6-byte records), counts 2 and 1 -/
+example : entryRecordsSize [0,2, 108,105,103,97, 1, 2, 108,105,103,98, 3, 1, 9,9,9,9,9,9] 3 3 = .ok 6 ∧
+    entryRecordsSize [0,2, 108,105,103,97, 1, 2, 108,105,103,98, 3, 1, 9,9,9,9,9,9] 3 256 = .ok 12 := by
+  decide +kernel
+
+
+example : ((gpRead exGp false).bind (fun h => gdTrace exGp h 0)).map (fun evs => (items evs).map Except.toOption) =
+      some [some (5, 25, 2), some (9, 27, 1)] ∧
+    ((gpRead exGp false).bind (fun h => gdTrace exGp h 1)).map (fun evs => (items evs).length) = some 0 ∧
+    ((gpRead exGp false).bind (fun h => gdTrace exGp h MAXU)).map (fun evs => (items evs).length) = some 0 := by
+  decide +kernel
+
+example : compatFromU32s [1, 2, 3, 0x01020304] = some [0,0,0,1, 0,0,0,2, 0,0,0,3, 1,2,3,4] := by decide
 
 end FontVerif.C01HandAat
